@@ -390,4 +390,81 @@ theorem stepOk_put_inserted (hv : v.files = F1 ++ F2) (hw : v.wfB = true) (hgn :
 
 end insert
 
+/-! ## C04: no unit is lost (`noLeak`) -/
+
+theorem mem_vrange {lo hi u : Nat} : u ∈ Vol.range lo hi ↔ lo ≤ u ∧ u < hi := by
+  unfold Vol.range
+  simp only [List.mem_map, List.mem_range]
+  constructor
+  · rintro ⟨k, hk, rfl⟩; omega
+  · rintro ⟨h1, h2⟩; exact ⟨u - lo, by omega, by omega⟩
+
+theorem noLeak_iff {v : Vol} : v.noLeak = true ↔ ∀ u, v.lo ≤ u → u < v.hi → u ∈ v.allOwned ∨ u ∈ v.sys ∨ u ∈ v.freeUnits := by
+  unfold Vol.noLeak
+  rw [List.all_eq_true]
+  constructor
+  · intro h u h1 h2
+    have := h u (mem_vrange.2 ⟨h1, h2⟩)
+    simpa [Bool.or_eq_true, or_assoc] using this
+  · intro h u hu
+    obtain ⟨h1, h2⟩ := mem_vrange.1 hu
+    have := h u h1 h2
+    simpa [Bool.or_eq_true, or_assoc] using this
+
+/-- a step together with what it does to the C04 accounting: allowed by the specification, and (under `cond`) a
+reading without lost units stays so -/
+structure StepL (P : FsParams) (pre : Vol) (op : FsOp) (ok : Bool) (post : Vol) (cond : Prop) : Prop where
+  ok : stepOk P pre op ok post = true
+  tight : cond → pre.noLeak = true → post.noLeak = true
+
+theorem StepL.refused_same {P : FsParams} {v : Vol} (hw : v.wfB = true) (op : FsOp) (cond : Prop) : StepL P v op false v cond :=
+  ⟨stepOk_refused_same hw op, fun _ h => h⟩
+
+theorem noLeak_replaced {v : Vol} {F1 F2 : List FileRec} {f g : FileRec} (hv : v.files = F1 ++ f :: F2) (ho : g.owned = f.owned)
+    (h : v.noLeak = true) : (replaced v F1 F2 g).noLeak = true := by
+  rw [noLeak_iff] at h ⊢
+  have hao : (replaced v F1 F2 g).allOwned = v.allOwned := by
+    unfold Vol.allOwned replaced; rw [hv]; exact allOwned_replace ho
+  intro u h1 h2
+  rw [hao]
+  exact h u h1 h2
+
+theorem noLeak_removed {v : Vol} {F1 F2 : List FileRec} {f : FileRec} {free' : List Nat} (hv : v.files = F1 ++ f :: F2)
+    (hfree : ∀ x, x ∈ free' ↔ x ∈ v.freeUnits ∨ x ∈ f.owned) (h : v.noLeak = true) : (removed v F1 F2 free').noLeak = true := by
+  rw [noLeak_iff] at h ⊢
+  intro u h1 h2
+  have hao : v.allOwned = F1.flatMap (·.owned) ++ (f.owned ++ F2.flatMap (·.owned)) := by
+    unfold Vol.allOwned; rw [hv]; exact allOwned_split F1 F2 f
+  have hao' : (removed v F1 F2 free').allOwned = F1.flatMap (·.owned) ++ F2.flatMap (·.owned) := by
+    unfold Vol.allOwned removed; simp [List.flatMap_append]
+  rcases h u h1 h2 with a | a | a
+  · rw [hao] at a
+    rcases List.mem_append.1 a with a | a
+    · left; rw [hao']; exact List.mem_append_left _ a
+    · rcases List.mem_append.1 a with a | a
+      · right; right; exact (hfree u).2 (Or.inr a)
+      · left; rw [hao']; exact List.mem_append_right _ a
+  · right; left; exact a
+  · right; right; exact (hfree u).2 (Or.inl a)
+
+theorem noLeak_inserted {v : Vol} {F1 F2 : List FileRec} {g : FileRec} {free' : List Nat} (hv : v.files = F1 ++ F2)
+    (hfree : ∀ x, x ∈ free' ↔ x ∈ v.freeUnits ∧ x ∉ g.owned) (h : v.noLeak = true) : (inserted v F1 F2 g free').noLeak = true := by
+  rw [noLeak_iff] at h ⊢
+  intro u h1 h2
+  have hao : v.allOwned = F1.flatMap (·.owned) ++ F2.flatMap (·.owned) := by
+    unfold Vol.allOwned; rw [hv, List.flatMap_append]
+  have hao' : (inserted v F1 F2 g free').allOwned = F1.flatMap (·.owned) ++ (g.owned ++ F2.flatMap (·.owned)) := by
+    unfold Vol.allOwned inserted; simp [List.flatMap_append, List.flatMap_cons]
+  rcases h u h1 h2 with a | a | a
+  · left
+    rw [hao] at a; rw [hao']
+    rcases List.mem_append.1 a with a | a
+    · exact List.mem_append_left _ a
+    · exact List.mem_append_right _ (List.mem_append_right _ a)
+  · right; left; exact a
+  · by_cases hg : u ∈ g.owned
+    · left; rw [hao']; exact List.mem_append_right _ (List.mem_append_left _ hg)
+    · right; right; exact (hfree u).2 ⟨a, hg⟩
+
+
 end A2Verif.FsDos
